@@ -237,3 +237,83 @@ def run_correspondence(ctx, ncases, tag, cfg_filter=None):
         ctx.oblige(same, "correspondence", "model genQ/Mean.rom_analyze_aggregates = real analyze_aggregates (Fractions, stand-in sqrt/exp/distributions)",
                    f"model={got} impl={exp}", case)
         ctx.sample({"cfg": case["cfg"], "equal": same, "impl_pvalue": str(exp[8][1])}, limit=3)
+
+
+# ----------------------------------------------------------------------------- reference test (oracle)
+def reference_test(xs, ys, alt, equal_var, use_t, cl):
+    """Textbook two-sample test from raw observations with numpy/scipy, written independently of tea-tasting."""
+    import numpy as np
+    import scipy.stats as st
+    xs, ys = np.asarray(xs, dtype=float), np.asarray(ys, dtype=float)
+    nx, ny = len(xs), len(ys)
+    mx, my = xs.mean(), ys.mean()
+    vx, vy = xs.var(ddof=1), ys.var(ddof=1)
+
+    def se_df(vx, vy):
+        if equal_var:
+            sp2 = ((nx - 1) * vx + (ny - 1) * vy) / (nx + ny - 2)
+            return math.sqrt(sp2 * (1 / nx + 1 / ny)), nx + ny - 2
+        a, b = vx / nx, vy / ny
+        return math.sqrt(a + b), (a + b) ** 2 / (a * a / (nx - 1) + b * b / (ny - 1))
+    se, df = se_df(vx, vy)
+    d = st.t(df) if use_t else st.norm()
+    t = (my - mx) / se
+    out = {"control": mx, "treatment": my, "effect_size": my - mx, "statistic": t, "rel_effect_size": my / mx - 1}
+    lse, ldf = se_df(vx / mx ** 2, vy / my ** 2)
+    ld = st.t(ldf) if use_t else st.norm()
+    lr = math.log(my / mx) if my / mx > 0 else float("nan")
+    if alt == "two-sided":
+        z, zl = d.ppf((1 + cl) / 2), ld.ppf((1 + cl) / 2)
+        out.update(pvalue=2 * d.sf(abs(t)),
+                   effect_size_ci_lower=my - mx - z * se, effect_size_ci_upper=my - mx + z * se,
+                   rel_effect_size_ci_lower=math.exp(lr - zl * lse) - 1, rel_effect_size_ci_upper=math.exp(lr + zl * lse) - 1)
+    elif alt == "greater":
+        z, zl = d.ppf(cl), ld.ppf(cl)
+        out.update(pvalue=d.sf(t), effect_size_ci_lower=my - mx - z * se, effect_size_ci_upper=math.inf,
+                   rel_effect_size_ci_lower=math.exp(lr - zl * lse) - 1, rel_effect_size_ci_upper=math.inf)
+    else:
+        z, zl = d.ppf(cl), ld.ppf(cl)
+        out.update(pvalue=d.cdf(t), effect_size_ci_lower=-math.inf, effect_size_ci_upper=my - mx + z * se,
+                   rel_effect_size_ci_lower=-math.inf, rel_effect_size_ci_upper=math.exp(lr + zl * lse) - 1)
+    return out
+
+
+def compare_result(res, ref, rtol=1e-7, skip_rel_ci=False):
+    """List of (field, got, want) that differ beyond tolerance."""
+    bad = []
+    for f in RES_FIELDS:
+        if skip_rel_ci and f.startswith("rel_effect_size_ci"):
+            continue
+        g, w = float(getattr(res, f)), float(ref[f])
+        if math.isnan(w):
+            continue
+        if math.isinf(w) or math.isinf(g):
+            if g != w:
+                bad.append((f, g, w))
+            continue
+        scale = max(abs(w), abs(ref["effect_size"]) if f.startswith("effect") else 0.0, 1e-300)
+        if abs(g - w) > rtol * scale + (1e-12 if f == "pvalue" else 0):
+            bad.append((f, g, w))
+    return bad
+
+
+def float_table(rng, n, cols=None, kind=None):
+    """Rows of floats (dict col -> list) with positive-mean columns."""
+    import numpy as np
+    cols = cols or G.COLS
+    kind = kind or rng.choice(["normal", "lognormal", "ints", "offset"])
+    seed = rng.randint(0, 2**31)
+    r = np.random.default_rng(seed)
+    out = {}
+    base = r.normal(size=n)
+    for i, c in enumerate(cols):
+        if kind == "normal":
+            v = 5 + i + r.normal(size=n) * (1 + i) + 0.7 * base
+        elif kind == "lognormal":
+            v = np.exp(r.normal(size=n) * 0.5 + 0.3 * base) * (i + 1)
+        elif kind == "ints":
+            v = r.poisson(3 + i, size=n).astype(float) + 1 + r.integers(0, 2, size=n)
+        else:
+            v = 1e6 + r.normal(size=n) * 3 + base
+        out[c] = [float(x) for x in v]
+    return out
